@@ -98,13 +98,21 @@ func TomlKeyToEvCode(key string, lookupTable map[string]evdev.EvCode) (evdev.EvC
 
 }
 
-func ParseData(data []byte) (Config, error) {
+func ParseData(data []byte) (result Config, err error) {
+	// the TOML decoder panics on some valid-TOML inputs (e.g. a date where a number is expected),
+	// a broken user file must not take the application down
+	defer func() {
+		if r := recover(); r != nil {
+			result, err = Config{}, fmt.Errorf("parsing failed: %v", r)
+		}
+	}()
+
 	cfg := TOMLDeviceConfig{}
 
 	d := toml.NewDecoder(bytes.NewReader(data))
 	d.DisallowUnknownFields()
 
-	err := d.Decode(&cfg)
+	err = d.Decode(&cfg)
 	if err != nil {
 		return Config{}, fmt.Errorf("parsing failed: %w", err)
 	}
